@@ -301,14 +301,18 @@ def c36_runs(tier):
         for i, s in enumerate(stealers):
             params['t%d' % (i + 1)] = s
         runs.append(McRun('c34_rings', 'deque', params, bound=bound, mode=mode, budget=60))
+        if mode == 'plain':
+            # the deque's correctness rests on its seq_cst fences: every configuration is explored a second
+            # time under the weak-memory option (stale reads as deviations), right after its SC run
+            runs.append(McRun('c34_rings', 'deque', params, bound=min(bound, 2 if tier == 'quick' else 3), opts={'wm': 1}, budget=60, tag='.wm'))
     owners_q = ['po', 'ppo', 'ppoo', 'popo', 'pppo', 'pio', 'ppio']
     if tier == 'quick':
         for cap in (1, 2):
             for o in owners_q:
-                for st in (['s'], ['S'], ['ss'], ['s', 's'], ['s', 'S']):
-                    add(cap, o, st, 3)
+                for st in (['s'], ['ss'], ['s', 'S']):
+                    add(cap, o, st, 3 if len(st) == 1 else 2)
         for o in ('pppo', 'ppop'):
-            add(4, o, ['ss'], 3)
+            add(4, o, ['ss'], 2)
     else:
         owners = [o for o in _seqs(['p', 'o', 'i'], 4, 2) if 'p' in o and _has(o, 'oi')]
         for cap in (1, 2, 4):
@@ -463,4 +467,3 @@ _add_wm('C23', 12, 60, 2, 2)
 _add_wm('C24', 15, 60, 2, 3)
 _add_wm('C34', 25, 150, 2, 2)
 _add_wm('C35', 30, 200, 2, 3)
-_add_wm('C36', 20, 150, 2, 3)
